@@ -180,15 +180,11 @@ def stage_lines(lines):
 
 def fields(reply):
     """(out, res) of a machine reply line, or the whole line if it is not an OK line"""
-    m = re.match(r'^OK out=(\[[^\]]*\]) res=(\S+)', reply)
+    m = re.match(r'^OK out=(\[[^\]]*\]) res=(.*?) steps=', reply)
     if not m: return reply
     res = m.group(2)
     res = re.sub(r'@\d+$', '', res)          # line numbers differ between backends
     return f'out={m.group(1)} res={res}'
-
-def norm_fault(r):
-    """faults are compared by class only: div-by-zero / div-overflow are the same event everywhere"""
-    return r
 
 def main():
     ap = argparse.ArgumentParser()
